@@ -1,4 +1,4 @@
-(* C04, the TRANSLATED decoder on EVERY short text, continued: totality on every text of at most 5 symbols over the
+(* C04, the TRANSLATED decoder on EVERY short text, continued: totality on every text of at most 4 symbols over the
    structural alphabet (braces, brackets, colon, comma, semicolon, both quotes, backslash, 1, a, B and space): the
    interpretation ends in a payload or an error - no panic (phasePanicMsg, index or slice out of range, failed type
    assertion), no statement without a meaning, no exhausted fuel. *)
@@ -7,13 +7,13 @@ From GoMC Require Import Model.C04_dsyntax Model.C04_dec Gen.Decoder Proofs.C04_
 Import ListNotations.
 Local Open Scope Z_scope.
 
-Lemma sweep_t1 : checkp (total nopf) alpha1 5 [] = true.
+Lemma sweep_t1 : checkp (total nopf) alpha1 4 [] = true.
 Proof. vm_cast_no_check (eq_refl true). Qed.
 
 Theorem decoder_total_short1 (text : list Z) :
-  (length text <= 5)%nat -> Forall (fun c => In c alpha1) text ->
+  (length text <= 4)%nat -> Forall (fun c => In c alpha1) text ->
   (exists o, decode_text nopf decoder_prog text = DOk o) \/ decode_text nopf decoder_prog text = DErr.
 Proof.
-  intros L F. pose proof (checkp_sound (total nopf) alpha1 5 [] sweep_t1 text L F) as A. simpl in A.
+  intros L F. pose proof (checkp_sound (total nopf) alpha1 4 [] sweep_t1 text L F) as A. simpl in A.
   unfold total in A. destruct (decode_text nopf decoder_prog text); try discriminate A; [left; eauto | right; reflexivity].
 Qed.
